@@ -141,7 +141,9 @@ CHECKS = {
        "carries the IGNORECASE flag or contains no cased letter, and for every pattern (any regex of the fragment) matching, searching and finditer "
        "are invariant under case variants of the subject when ignore-case is on. Splitting a statement over `&` continuation lines (with or without a leading `&`, with blank, comment and preprocessor "
        "lines in between) hands the statement readers the same text up to blanks, for any number of pieces (model of get_code_line's forward gathering, "
-       "validated against the implementation on every run). `;` splitting is exercised by a metamorphic oracle: generated programs x random "
+       "validated against the implementation on every run). Statements joined by `;` -- any number, their literals holding `;`, `!` or the other quote, "
+       "a comment behind the last -- are handed on as written (model of strip_strings and of the cut in parse(), run against both on every run; a "
+       "refutation witness of the pinned rule, fixed). What the readers make of the text is exercised by a metamorphic oracle: generated programs x random "
        "compositions of the listed transformations, dumps equal modulo the line map.",
   note="Partial. Trusted: Coq kernel, vm_compute, regex translator + engine fidelity, splitlines correspondence. Continuation/`;` handling is metamorphic-differential only.",
   technique="Rocq proof (terminator independence, blank-line shift, comment cut, case invariance of all generated statement patterns) + metamorphic re-layout differential against the server",
